@@ -420,6 +420,9 @@ CHECKS["C18"] = {
         {"name": "tcp-storm-race", "pkg": "srvworld", "run": "^TestC18TCPStorm$", "race": True,
          "quick": {"shards": 4, "checks": 100, "timeout_s": 500},
          "thorough": {"shards": 16, "checks": 1500, "timeout_s": 3000}},
+        {"name": "stalled-stream-client", "pkg": "srvworld", "run": "^TestC18Stall$", "race": True,
+         "quick": {"shards": 2, "checks": 400, "timeout_s": 500},
+         "thorough": {"shards": 8, "checks": 6000, "timeout_s": 3000}},
         {"name": "client-race", "pkg": "cliworld", "run": "^TestC18Client$", "race": True,
          "quick": {"shards": 2, "checks": 150, "timeout_s": 500},
          "thorough": {"shards": 8, "checks": 3000, "timeout_s": 3000}},
